@@ -379,3 +379,25 @@ def accepted_statistic_names(repo, spellings=("qtilde", "q", "q0", "Q0", "Q", "Q
         else:
             raise Undecided(f"get_test_stat({sp_!r}) returns {getattr(f_, 'name', f_)!r}")
     return out
+
+
+def toy_hypotheses(repo, stat):
+    """The POI values at which ToyCalculator.distributions (constructor + distributions interpreted, fits as recorders)
+    runs its two conditional fits for the statistic named `stat`: [mu of the signal toys, mu of the background toys]."""
+    tc = repo.cls(CALC, "ToyCalculator")
+    fits = []
+
+    def fpf(args, kw):
+        fits.append(to_poly(args[0]))
+        return Obj(f"fit{len(fits)}")
+
+    ext = {
+        "fixed_poi_fit": fpf, ".make_pdf": lambda recv, a, k: Obj("pdf"), ".sample": lambda recv, a, k: Obj("toys"), "tqdm": lambda a, k: [Obj("toy")],
+        "EmpiricalDistribution": lambda a, k: Obj("ED"), "get_test_stat": lambda a, k: PyFunc(lambda a2, k2: Obj("ts"), "teststat_func"), "dict": lambda a, k: {},
+        "HypoTestFitResults": lambda a, k: Obj("fitresults", dict(k), closed=True),
+    }
+    attrs = {}
+    ienv = {"data": Obj("data"), "pdf": Obj("model"), "init_pars": Obj("init"), "par_bounds": Obj("bounds"), "fixed_params": Obj("fixed"), "test_stat": stat, "ntoys": Poly.atom("NTOYS"), "track_progress": False}
+    Interp(ienv, attrs, {}, cls_name=tc.name, externals=ext).run(A.strip_docstring(tc.methods["__init__"].node.body))
+    Interp({"poi_test": Poly.atom("mu_test"), "track_progress": None, "utils": Obj("utils")}, attrs, {}, cls_name=tc.name, externals=ext).run(A.strip_docstring(tc.methods["distributions"].node.body))
+    return [str(x) for x in fits]
